@@ -117,15 +117,26 @@ Definition limits_of_items (its : list item) : list Z :=
   flat_map (fun it => (match fst it with Some l => [l] | None => [] end) ++ (match snd it with Some u => [u] | None => [] end)) its.
 
 (* IntegerFieldFormat.__init__: self.length = Range(length_text) is [len]; result is valid_range *)
+Definition limit_too_big (r : range) : bool :=
+  match r with
+  | None => false
+  | Some its => existsb (fun it => (match fst it with Some l => 4000 <? Z.abs l | None => false end)
+                                   || (match snd it with Some u => 4000 <? Z.abs u | None => false end)) its
+  end.
 Definition integer_valid_range (k : fmtkind) (length_text rule : text) (len : range) : decl range :=
   let has_length := negb (is_blank_text length_text) in
   let has_rule := negb (is_blank_text rule) in
+  let fixed_length_bad := fmtkind_eqb k KFixed && has_length
+                          && negb (match lower_limit len, upper_limit len with Some l, Some u => l =? u | _, _ => false end) in
+  if has_length && limit_too_big len then DeclOut          (* digit strings beyond the interpreter's int/str limit *)
+  else if fixed_length_bad then DeclInterface               (* "must be a specific number" *)
+  else
   let length := if fmtkind_eqb k KFixed
                 then match upper_limit len with Some u => Some [(Some 1, Some u)] | None => len end
                 else len in
   let length_range := if has_length then range_from_length length else LAll in
-  match (if has_length then length_range else LAll) with
-  | LRangeError => DeclLeak            (* RangeValueError, a data error, out of a declaration *)
+  match length_range with
+  | LRangeError => DeclInterface       (* RangeValueError of create_range_from_length, reported as InterfaceError *)
   | lr =>
       if has_rule then
         match range_of_text rule with
@@ -140,7 +151,7 @@ Definition integer_valid_range (k : fmtkind) (length_text rule : text) (len : ra
         match lr with
         | LItems its => DeclOk (Some its)
         | LAll => if has_length then DeclOk None else decl_of_pres (range_of_text DEFAULT_INTEGER_RANGE_TEXT)
-        | LRangeError => DeclLeak
+        | LRangeError => DeclInterface
         end
   end.
 
